@@ -286,6 +286,11 @@ struct Tally {
     sigs: Vec<u64>,
 }
 impl Tally {
+    fn push_sig(&mut self, s: u64) {
+        if self.sigs.last() != Some(&s) {
+            self.sigs.push(s);
+        }
+    }
     fn flush(&mut self, check: &Check, fam: &str) {
         check.count(&format!("{fam}_must_refuse_checked"), self.must_refuse);
         check.count(&format!("{fam}_must_pass_checked"), self.must_pass);
@@ -308,7 +313,7 @@ fn judge(check: &Check, table: &[Block], tally: &mut Tally, a: u128, v6: bool, a
     match want {
         Want::MustRefuse(i) => {
             tally.must_refuse += 1;
-            tally.sigs.push(Sig::new().u64(v6 as u64).u64(1).u64(i as u64).u64(bucket).0);
+            tally.push_sig(Sig::new().u64(v6 as u64).u64(1).str(table[i].text).u64(bucket).0);
             if got != Got::Refused {
                 let b = &table[i];
                 check.violation(
@@ -320,7 +325,7 @@ fn judge(check: &Check, table: &[Block], tally: &mut Tally, a: u128, v6: bool, a
         }
         Want::MustPass => {
             tally.must_pass += 1;
-            tally.sigs.push(Sig::new().u64(v6 as u64).u64(2).u64(bucket).0);
+            tally.push_sig(Sig::new().u64(v6 as u64).u64(2).u64(bucket).0);
             if got != Got::Passed {
                 let cls = if v6 { format!("{:x}::/16", bucket) } else { format!("{}.0.0.0/8", bucket) };
                 check.violation(
@@ -435,18 +440,31 @@ pub fn run(args: &Args) -> i32 {
 
     // ---- IPv4
     let v4_tails = tails(V4_TAILS);
+    let v4_tail_bytes: Vec<Vec<u8>> = v4_tails.iter().map(|t| t.to_vec()).collect();
     if thorough && !tiny {
         // exhaustive: 65536 chunks of 65536 addresses
         vmon::par_cases(&check, 65536, args.threads, |chunk, _rng| {
             let mut rig = Rig::new();
             let mut tally = Tally::default();
             let base = (chunk as u32) << 16;
+            // Only registry rows that intersect this /16 can cover one of its addresses; the per-address
+            // rule is then evaluated on those rows (sound restriction, big speed-up for the 2^32 sweep).
+            let local: Vec<Block> = reg.v4.iter().filter(|b| b.first() <= (base | 0xffff) as u128 && b.last() >= base as u128).cloned().collect();
             let r = catch(|| {
                 for lo in 0..=0xffffu32 {
                     let a = base | lo;
                     // tails cycled so that every tail is seen in every /16
                     let k = (a % 7) as usize;
-                    test_v4(&check, &reg, &mut rig, &mut tally, a, &v4_tails[if k < 4 { k } else { 0 }]);
+                    let tail = &v4_tail_bytes[if k < 4 { k } else { 0 }];
+                    let mut bytes = Vec::with_capacity(5 + tail.len());
+                    bytes.push(0x04);
+                    bytes.extend_from_slice(&a.to_be_bytes());
+                    bytes.extend_from_slice(tail);
+                    let addr = Multiaddr::try_from(bytes).expect("ip4 multiaddr bytes");
+                    match rig.dial(&addr) {
+                        Ok(got) => judge(&check, &local, &mut tally, a as u128, false, &addr, got),
+                        Err((s, w)) => check.violation(s, w, json!({"address": addr.to_string()})),
+                    }
                 }
             });
             if let Err(p) = r {
